@@ -123,6 +123,14 @@ au_open	(SF_PRIVATE *psf)
 		else if (psf->endian != SF_ENDIAN_LITTLE)
 			psf->endian = SF_ENDIAN_BIG ;
 
+		if (psf->file.mode == SFM_WRITE && psf->is_pipe == 0)
+		{	/* A descriptor positioned inside a larger file leaves the rest of that file in filelength. */
+			psf->filelength = 0 ;
+			psf->datalength = 0 ;
+			psf->dataoffset = 0 ;
+			psf->sf.frames = 0 ;
+			} ;
+
 		if (au_write_header (psf, SF_FALSE))
 			return psf->error ;
 
